@@ -3,6 +3,7 @@ package props
 import (
 	"go/token"
 	"go/types"
+	"strings"
 
 	"golang.org/x/tools/go/ssa"
 
@@ -198,3 +199,60 @@ func posOf(in ssa.Instruction) token.Pos {
 }
 
 type typesSignature = types.Signature
+
+// paramOfType returns the n-th (0-based) parameter of fn whose type string
+// ends with typeSuffix (parameters are identified by type and position, never
+// by their spelling).
+func paramOfType(fn *ssa.Function, typeSuffix string, n int) *ssa.Parameter {
+	k := 0
+	for _, pa := range fn.Params {
+		if strings.HasSuffix(pa.Type().String(), typeSuffix) {
+			if k == n {
+				return pa
+			}
+			k++
+		}
+	}
+	return nil
+}
+
+// resultAlloc returns the variable (Alloc) holding named result idx of fn,
+// found through the loads feeding its Return instructions.
+func resultAlloc(fn *ssa.Function, idx int) *ssa.Alloc {
+	var out *ssa.Alloc
+	kit.Instrs(fn, func(in ssa.Instruction) {
+		r, ok := in.(*ssa.Return)
+		if !ok || idx >= len(r.Results) {
+			return
+		}
+		if l, ok := r.Results[idx].(*ssa.UnOp); ok && l.Op == token.MUL {
+			if a, ok := l.X.(*ssa.Alloc); ok {
+				out = a
+			}
+		}
+	})
+	return out
+}
+
+// spillOf returns the Alloc into which parameter pa is stored on entry
+// (parameters whose address is taken).
+func spillOf(pa *ssa.Parameter) *ssa.Alloc {
+	for _, r := range kit.Referrers(pa) {
+		if st, ok := r.(*ssa.Store); ok && st.Val == ssa.Value(pa) {
+			if a, ok := st.Addr.(*ssa.Alloc); ok {
+				return a
+			}
+		}
+	}
+	return nil
+}
+
+// freeVarFor returns the free variable of literal lit that is bound to alloc a.
+func freeVarFor(lit *ssa.Function, a *ssa.Alloc) *ssa.FreeVar {
+	for _, fv := range lit.FreeVars {
+		if kit.FreeVarBinding(fv) == ssa.Value(a) {
+			return fv
+		}
+	}
+	return nil
+}
